@@ -358,6 +358,13 @@ Section Frame.
       eapply hsafe_bind; [apply IHt2; exact H2|]. intros y2 Hy2.
       apply finish_safe. simpl. rewrite Hy1, Hy2. reflexivity.
     - destruct v; try (apply IHt; exact Hv). apply hsafe_ret. reflexivity.
+    - destruct v; try apply hsafe_fail.
+      + destruct xs as [|x xs]; [apply hsafe_ret; reflexivity|].
+        simpl in Hv. apply andb_true_iff in Hv. destruct Hv as [Hx _].
+        eapply hsafe_bind; [apply IHt; exact Hx|]. intros _ _. apply hsafe_fail.
+      + eapply hsafe_bind; [apply hsafe_read_fresh; exact Hv|]. intros c Hc.
+        destruct c; try apply hsafe_fail. pose proof Hv as Hv'. simpl in Hv. apply Nat.leb_le in Hv.
+        eapply hsafe_bind; [apply list_loop_safe; auto|]. intros _ _. apply hsafe_ret. exact Hv'.
   Qed.
 
   Lemma adapt_hsafe m t x : refs_ge n x = true -> hsafe (adapt fx m t x) (fun r => refs_ge n r = true).
@@ -548,16 +555,27 @@ Section Frame.
     - intros _ _. apply safe_ret. exact Ht.
   Qed.
 
-  Lemma validate_safe p cfg : okv cfg -> safe (validate fx p cfg) any.
+  Lemma validate_body_safe p c : refs_ge n c = true -> safe (validate_body fx p c) any.
   Proof.
-    intro Hc. unfold validate.
-    eapply safe_bind; [apply safe_lift, clone_safe; exact Hc|]. intros c Hc'.
+    intro Hc'. unfold validate_body.
     apply safe_bracket.
     eapply safe_bind; [apply safe_lift, ns_items_safe; exact Hc'|]. intros kvs Hk.
     apply (safe_miter _ (fun kv : str * val => refs_ge n (snd kv) = true)); [|apply forallb_Forall_snd; exact Hk].
     intros kv Hkv. destruct (find_decl p (fst kv)) as [d|]; [|apply safe_fail].
     destruct (snd kv) eqn:E; try (apply safe_ret; exact I);
       (eapply safe_bind; [apply check_value_key_safe; exact Hkv | intros _ _; apply safe_ret; exact I]).
+  Qed.
+  Lemma validate_safe p cfg : okv cfg -> safe (validate fx p cfg) any.
+  Proof.
+    intro Hc. unfold validate.
+    eapply safe_bind; [apply safe_lift, clone_safe; exact Hc|]. intros c Hc'. apply validate_body_safe. exact Hc'.
+  Qed.
+  Lemma validate_branch_safe p cfg : okv cfg -> safe (validate_branch fx p cfg) any.
+  Proof.
+    intro Hc. unfold validate_branch.
+    eapply safe_bind; [apply safe_lift, clone_safe; exact Hc|]. intros c Hc'.
+    eapply safe_bind; [apply safe_lift, hsafe_alloc; simpl; rewrite Hc'; reflexivity|]. intros _ _.
+    apply validate_body_safe. exact Hc'.
   Qed.
 
   Lemma parse_common_safe p cfg : refs_ge n cfg = true -> safe (parse_common fx p cfg) fresh.
@@ -762,6 +780,7 @@ Section Frame.
     - eapply safe_weaken; [apply parse_string_safe; exact Hp | auto].
     - unfold parse_path, chdir_region. eapply safe_weaken; [apply safe_bracket, safe_bracket, parse_string_safe; exact Hp | auto].
     - eapply safe_bind; [apply validate_safe; auto|]. intros _ _. apply safe_ret. exact I.
+    - eapply safe_bind; [apply validate_branch_safe; auto|]. intros _ _. apply safe_ret. exact I.
     - eapply safe_bind; [apply dump_safe; auto|]. intros _ _. apply safe_ret. exact I.
     - eapply safe_bind; [apply save_safe; auto|]. intros _ _. apply safe_ret. exact I.
     - eapply safe_weaken; [apply merge_safe; auto | auto].
@@ -929,7 +948,10 @@ Lemma merge_restores fx a b : restores (merge_config fx a b).
 Proof. unfold merge_config. rst. Qed.
 #[global] Hint Resolve merge_restores : rstdb.
 Lemma validate_restores fx p c : restores (validate fx p c).
-Proof. unfold validate. rst. Qed.
+Proof. unfold validate, validate_body. rst. Qed.
+Lemma validate_branch_restores fx p c : restores (validate_branch fx p c).
+Proof. unfold validate_branch, validate_body. rst. Qed.
+#[global] Hint Resolve validate_branch_restores : rstdb.
 #[global] Hint Resolve validate_restores : rstdb.
 Lemma parse_common_restores fx p c : restores (parse_common fx p c).
 Proof. unfold parse_common. rst. Qed.
